@@ -149,6 +149,15 @@ func c01Run(t rt.TB, c c01Case) {
 		if g := rec.Grammar(); g != "" {
 			c01Fail(t, c, string(c.Ctor), "delivery-after-terminal-concurrent", fmt.Sprintf("%s with producers %v: %s", c.Ctor, wordsString(c.Words), g))
 		}
+		anyTerm := false
+		for _, w := range c.Words {
+			if scriptEnd(w) != 0 {
+				anyTerm = true
+			}
+		}
+		if tr := rec.Trace(); anyTerm && tr.End == 0 {
+			c01Fail(t, c, string(c.Ctor), "terminal-never-delivered-concurrent", fmt.Sprintf("%s with producers %v: a producer emitted a terminal notification but the observer never received one (saw %v)", c.Ctor, wordsString(c.Words), rec.Recs()))
+		}
 		if d := rec.Len() + sink.DroppedCount(); d != total {
 			c01Fail(t, c, string(c.Ctor), "notification-lost-or-duplicated-concurrent", fmt.Sprintf("%s with producers %v: delivered %d + dropped-hook %d != emitted %d", c.Ctor, wordsString(c.Words), rec.Len(), sink.DroppedCount(), total))
 		}
